@@ -394,6 +394,7 @@ def corpus(ck):
         from tests.models import FromWrong
     except Exception as e:  # noqa: BLE001
         ck.notes.append(f"test-suite corpus not importable: {e!r}")
+        ck.count("corpus.unavailable")
         return
     from .. tables import t07_flowrow as T
     from ..extract_tables import _parse
@@ -578,7 +579,8 @@ def run(ck: core.Check):
     fold(ck, par.pmap(worker, core.shard(cases, par.NPROC * 2)))
     known_finding_stream(ck)
     witness_stream(ck)
-    for need in ("layout.unparse", "layout.encode", "layout.short", "layout.with-star-column", "layout.encode+perm", "corpus.differentways", "corpus.full_rows",
+    corpus_need = () if ck.strata.get("corpus.unavailable") else ("corpus.differentways", "corpus.full_rows")
+    for need in ("layout.unparse", "layout.encode", "layout.short", "layout.with-star-column", "layout.encode+perm") + corpus_need + (
                  "feature.record.positional", "feature.record.keyword", "feature.record.mixed", "feature.list.semicolon-cell",
                  "feature.star.broadcast", "feature.star.list"):
         if not ck.strata.get(need):
